@@ -533,3 +533,6 @@ corollary("C12.cov.grid_2d_via_shape_native_from", props=["C12"],
 
 
 _MINE = [k for k in list(CONTRACTS) + list(COROLLARIES) if k not in _before]
+
+
+CONTRACTS[G + "scaled_coordinates_1d_from"].unsigned_twin = ("pixel_coordinates_1d",)
